@@ -166,6 +166,19 @@ func runC11(c *core.Case) {
 			ids = append(ids, genID(r, h, h, v, v))
 		}
 	}
+	cornerShape := r.P(0.15) && !square
+	if cornerShape {
+		dh, dv := r.Range(0, 2), r.Range(0, 2)
+		if dh == 0 && dv == 0 {
+			dh = 1
+		}
+		base.H = clampI(base.H, 1, 31-dh)
+		base.X, base.Y = base.X&(pow2(base.H)-1), base.Y&(pow2(base.H)-1)
+		base.V = clampI(base.V, 0, 35-dv)
+		base.F = clampI(base.F, -pow2(base.V), pow2(base.V)-1)
+		ids = cornerFirst(r, base, dh, dv)
+		c.Tag("corner-children-then-parent")
+	}
 	for i := range ids { // keep f inside the zoom's range after the shifts
 		ids[i].F = clampI(ids[i].F, -pow2(ids[i].V), pow2(ids[i].V)-1)
 	}
@@ -179,7 +192,13 @@ func runC11(c *core.Case) {
 		}
 	}
 	H, V := h, v
-	if !r.P(0.35) {
+	if cornerShape {
+		// output zooms between the parent's and the children's (or exactly the children's)
+		H, V = r.Range(ids[len(ids)-1].H, ids[0].H), r.Range(ids[len(ids)-1].V, ids[0].V)
+		if r.Bool() {
+			H, V = ids[0].H, ids[0].V
+		}
+	} else if !r.P(0.35) {
 		H = clampI(minH+r.Range(-3, 3), 1, 31)
 		V = clampI(minV+r.Range(-3, 3), 0, 35)
 		if r.P(0.2) {
